@@ -76,52 +76,53 @@ Theorem C18_pgmove_roundtrip : forall pos m,
 Proof. exact pgmove_decode_roundtrip. Qed.
 Print Assumptions C18_pgmove_roundtrip.
 
-(** Every stored move of positive weight (all moves under the key being legal) is returned for
-    some random number below the sum, and Random::nextInt can deliver that number when the sum is
-    at most 2^30. *)
+(** Every stored move of positive weight (all moves under the key being legal, the weight sum
+    within the limit the probe accepts) is returned for some random number below the sum, and
+    Random::nextInt delivers that number. *)
 Theorem C18_positive_weight_reachable : forall f key pos legal e,
   sortedFile f -> In e (fileEntries f) -> entHash e = key -> (0 < entWeight e)%N ->
   (forall e', In e' (fileEntries f) -> entHash e' = key -> In (getMove pos (entMove e')) legal) ->
-  exists pr rnd, getBookEntriesPG f key pos = Some pr /\
-    0 <= rnd < weightSum pgWeight (pr_cands pr) /\
-    pgBookMove f key pos legal rnd = Some (OutMove (getMove pos (entMove e))) /\
-    (weightSum pgWeight (pr_cands pr) <= 1073741824 ->
+  exists pr, getBookEntriesPG f key pos = Some pr /\
+    (weightSum pgWeight (pr_cands pr) <= sumLimit ->
+     exists rnd, 0 <= rnd < weightSum pgWeight (pr_cands pr) /\
+       pgBookMove f key pos legal rnd = Some (OutMove (getMove pos (entMove e))) /\
        nextIntTry (weightSum pgWeight (pr_cands pr)) (Z.to_N rnd) = Some rnd).
 Proof. exact positive_weight_reachable. Qed.
 Print Assumptions C18_positive_weight_reachable.
 
-(** Weights are 16-bit; the int sum cannot overflow while count * 65535 < 2^31. *)
-Theorem C18_weight_sum_range : forall f key pos pr, getBookEntriesPG f key pos = Some pr ->
+(** Weights are 16-bit.  For ANY number of entries under the key: every addition the first loop
+    executes stays inside [int] (it leaves at the first running sum above 2^30), and when it runs
+    to the end the sum is the exact total, lies in [0, 2^30], and every prefix sum of the second
+    loop is inside [int].  (Before the fix of /repo commit "give no book move when the polyglot
+    weight sum exceeds 2^30" this needed count * 65535 < 2^31: former finding F7.) *)
+Theorem C18_weight_sum_range : forall f key pos legal pr, getBookEntriesPG f key pos = Some pr ->
   Forall weightOk (pr_cands pr) /\
-  (Z.of_nat (length (pr_cands pr)) * 65535 <= intMax -> sumsInInt pgWeight (pr_cands pr) 0 = true) /\
-  0 <= weightSum pgWeight (pr_cands pr) <= Z.of_nat (length (pr_cands pr)) * 65535.
+  loop1InInt pgWeight legal (pr_cands pr) 0 = true /\
+  (forall sum, sumLegal pgWeight legal (pr_cands pr) 0 = Some sum ->
+     0 <= sum <= sumLimit /\ sum = weightSum pgWeight (pr_cands pr) /\ sumsInInt pgWeight (pr_cands pr) 0 = true).
 Proof. exact weight_sum_range. Qed.
 Print Assumptions C18_weight_sum_range.
 
-(** Beyond the guard the statement is false (finding F7): 32769 entries of weight 65535. *)
-Definition C18_weight_sum_unguarded_statement : Prop :=
-  forall ents, Forall weightOk ents -> sumsInInt pgWeight ents 0 = true.
-Theorem C18_weight_sum_unguarded_refuted :
-  exists ents, Forall weightOk ents /\ Z.of_nat (length ents) = 32769 /\ sumsInInt pgWeight ents 0 = false.
-Proof. exact weight_sum_overflow_witness. Qed.
-Print Assumptions C18_weight_sum_unguarded_refuted.
+(** Above the limit the probe gives no move, for every legal list and random number. *)
+Theorem C18_over_limit_no_move : forall wf legal ents rnd,
+  (forall e, In e ents -> 0 <= wf (snd e)) -> sumLimit < weightSum wf ents ->
+  getBookMove wf legal ents rnd = OutMove emptyMove.
+Proof. exact over_limit_no_move. Qed.
+Print Assumptions C18_over_limit_no_move.
 
-(** Random::nextInt(sum): results are below the sum, every value below the sum can be delivered
-    when sum <= 2^30 ... *)
-Theorem C18_nextInt_range : forall sum, 0 < sum ->
+(** Whenever Book::getBookMove reaches Random::nextInt(sum) (any book kind, any weight function)
+    0 < sum <= 2^30: each trial of the rejection loop is accepted with probability above 1/2 (so the
+    loop ends with probability one), results are below the sum, every value below the sum can be
+    delivered.  (Former finding: above 2^30 no trial was ever accepted and the probe hung.) *)
+Theorem C18_choice_terminates : forall wf legal ents sum,
+  sumLegal wf legal ents 0 = Some sum -> 0 < sum ->
+  sum <= 1073741824 /\
+  536870912 < nextIntMaxVal sum <= 1073741824 /\
+  (forall u, Z.of_N u mod 1073741824 < nextIntMaxVal sum -> nextIntTry sum u <> None) /\
   (forall u r, nextIntTry sum u = Some r -> 0 <= r < sum) /\
-  (sum <= 1073741824 -> forall rnd, 0 <= rnd < sum -> nextIntTry sum (Z.to_N rnd) = Some rnd).
-Proof. exact nextInt_range. Qed.
-Print Assumptions C18_nextInt_range.
-
-(** ... but "the draw terminates for every positive int sum" is false: above 2^30 every trial of
-    the rejection loop is rejected (finding: the probe never returns). *)
-Definition C18_choice_terminates_statement : Prop :=
-  forall sum, 0 < sum <= intMax -> exists u, nextIntTry sum u <> None.
-Theorem C18_choice_terminates_refuted :
-  exists sum, 0 < sum <= intMax /\ forall u, nextIntTry sum u = None.
-Proof. exact nextInt_hang_witness. Qed.
-Print Assumptions C18_choice_terminates_refuted.
+  (forall rnd, 0 <= rnd < sum -> nextIntTry sum (Z.to_N rnd) = Some rnd).
+Proof. exact choice_terminates. Qed.
+Print Assumptions C18_choice_terminates.
 
 (** Built-in book: for every book map, weight function, legal list and random number. *)
 Theorem C18_builtin_legal : forall bm zob wf legal rnd,
@@ -135,6 +136,7 @@ Print Assumptions C18_builtin_legal.
 Theorem C18_builtin_reachable : forall bm zob wf legal m c,
   Forall (fun e => In (fst e) legal) (getBookEntriesBuiltin bm zob) ->
   (forall e, In e (getBookEntriesBuiltin bm zob) -> 0 <= wf (snd e)) ->
+  weightSum wf (getBookEntriesBuiltin bm zob) <= sumLimit ->
   In (m, c) (getBookEntriesBuiltin bm zob) -> 0 < wf c ->
   exists rnd, 0 <= rnd < weightSum wf (getBookEntriesBuiltin bm zob) /\
               builtinBookMove bm zob wf legal rnd = OutMove m.
